@@ -5,6 +5,7 @@ package main
 import (
 	"fmt"
 	"go/constant"
+	"go/token"
 	"go/types"
 	"sort"
 	"strings"
@@ -460,6 +461,115 @@ func (m *Model) RunTextFlow(s *Sink, rule string) {
 			s.OK(rule, fnKey(pc)+"|the byte immediately before", m.Pos(pc.Pos()), "prevChar reads input[pos-1]")
 		} else {
 			s.Violation(rule, fnKey(pc)+"|the byte immediately before", m.Pos(pc.Pos()), "prevChar does not read input[pos-1]: the escape test looks at the wrong byte")
+		}
+	}
+	// the escape flag is raised only in front of what it escapes: a backslash before an '@' that starts no directive,
+	// or before a single brace, is ordinary text and must stay
+	if idt := m.Method("lexer", "Lexer", "isDirectiveToken"); idt != nil && idt.Signature.Results().Len() == 2 {
+		illegal := int64(-1)
+		for v, n := range tokenConstNames {
+			if n == "ILLEGAL" {
+				illegal = v
+			}
+		}
+		okAll, nTrue := true, 0
+		where := ""
+		for _, b := range idt.Blocks {
+			ret, isRet := b.Instrs[len(b.Instrs)-1].(*ssa.Return)
+			if !isRet || len(ret.Results) != 2 {
+				continue
+			}
+			k, isK := retSource(ret, 1).(*ssa.Const)
+			if isK && k.Value != nil && k.Value.Kind() == constant.Bool && !constant.BoolVal(k.Value) {
+				continue // escaped = false
+			}
+			nTrue++
+			matched := false
+			for _, f := range expandFacts(factsAt(b)) {
+				bo, isBo := f.Cond.(*ssa.BinOp)
+				if !isBo || (bo.Op != token.EQL && bo.Op != token.NEQ) {
+					continue
+				}
+				for _, pr := range [][2]ssa.Value{{bo.X, bo.Y}, {bo.Y, bo.X}} {
+					c, isC := pr[0].(*ssa.Call)
+					kc, isKc := pr[1].(*ssa.Const)
+					if isC && isKc && c.Call.StaticCallee() != nil && canonFnName(c.Call.StaticCallee()) == "LookupDirective" && kc.Value != nil && kc.Int64() == illegal && (bo.Op == token.NEQ) == f.Holds {
+						matched = true
+					}
+				}
+			}
+			if !matched {
+				okAll = false
+				where = m.InstrPos(ret)
+			}
+		}
+		key := fnKey(idt) + "|escaped only when a directive keyword follows"
+		switch {
+		case nTrue == 0:
+			s.Violation(rule, key, m.Pos(idt.Pos()), "isDirectiveToken never reports an escaped directive: `\\@if` cannot be written as text")
+		case okAll:
+			s.OK(rule, key, m.Pos(idt.Pos()), "every return that reports an escape lies under LookupDirective(keyword) != ILLEGAL")
+		default:
+			s.Violation(rule, key, where, "isDirectiveToken can report an escaped directive (return at %s) without having found a directive keyword after the '@': the text scanner then removes the backslash of ordinary text such as `C:\\@home` or `\\@foo`", where)
+		}
+	}
+	if abt := m.Method("lexer", "Lexer", "areBracesToken"); abt != nil && abt.Signature.Results().Len() == 2 {
+		lexT := m.namedType("lexer", "Lexer")
+		fChar := -1
+		if lexT != nil {
+			st := lexT.Underlying().(*types.Struct)
+			for i := 0; i < st.NumFields(); i++ {
+				if canonFieldName(lexT, i, st.Field(i).Name()) == "char" {
+					fChar = i
+				}
+			}
+		}
+		bad, undecided := "", ""
+		for _, cs := range [][3]byte{{'{', '{', '\\'}, {'{', '{', 'x'}, {'{', 'x', '\\'}, {'x', '{', '\\'}, {'{', 'x', 'x'}, {'x', '{', 'x'}, {'x', 'x', '\\'}, {'x', 'x', 'x'}} {
+			if fChar < 0 {
+				undecided = "lexer.Lexer.char not found"
+				break
+			}
+			lx := &iStruct{typ: lexT, fields: map[int]any{fChar: constant.MakeInt64(int64(cs[0]))}}
+			ip := &Interp{m: m}
+			ip.call = func(c *ssa.Call, args []any) (any, bool) {
+				if sc := c.Call.StaticCallee(); sc != nil {
+					switch canonFnName(sc) {
+					case "peekChar":
+						return constant.MakeInt64(int64(cs[1])), true
+					case "prevChar":
+						return constant.MakeInt64(int64(cs[2])), true
+					}
+				}
+				return nil, false
+			}
+			res, ok := ip.Run(abt, []any{lx})
+			tup, isT := res.(iTuple)
+			if !ok || !isT || len(tup) != 2 || ip.stuck != "" {
+				undecided = "current " + string(cs[0]) + ", next " + string(cs[1]) + ": " + ip.stuck
+				break
+			}
+			r0, ok0 := tup[0].(constant.Value)
+			r1, ok1 := tup[1].(constant.Value)
+			if !ok0 || !ok1 {
+				undecided = "results unknown"
+				break
+			}
+			braces := cs[0] == '{' && cs[1] == '{'
+			wantB, wantE := braces && cs[2] != '\\', braces && cs[2] == '\\'
+			if constant.BoolVal(r0) != wantB || constant.BoolVal(r1) != wantE {
+				bad = fmt.Sprintf("with current %q, next %q, previous %q it answers (braces %v, escaped %v), expected (%v, %v)", rune(cs[0]), rune(cs[1]), rune(cs[2]), constant.BoolVal(r0), constant.BoolVal(r1), wantB, wantE)
+				break
+			}
+		}
+		key := fnKey(abt) + "|braces and escaped braces are told apart by the bytes around them"
+		switch {
+		case undecided != "":
+			s.Undecided(rule, key, m.Pos(abt.Pos()), "areBracesToken could not be evaluated (%s)", undecided)
+		case bad != "":
+			s.Violation(rule, key, m.Pos(abt.Pos()), "areBracesToken: %s — text loses a backslash that escapes nothing, or `{{` in text is (not) taken as the start of code", bad)
+		default:
+			s.OK(rule, key, m.Pos(abt.Pos()), "case evaluation over the 8 combinations of (current is '{', next is '{', previous is a backslash)")
 		}
 	}
 	// literal -> output chain
